@@ -97,8 +97,84 @@ def flow(ctx, proto, thorough, namplify, measure=True, stride=1):
     return list(zip(jobs, res))
 
 
+SFLOW_FUZZ_CFG = """SPECIFICATION FSpec
+CONSTANTS
+  DevIPv4Flags = FALSE
+  GuardVlan = %(vlan)s
+  DevVendorRejects = FALSE
+  GuardRouter = %(router)s
+  DevSwitchPriority = FALSE
+  MaxSamples = 1
+  SampleCat = {}
+  Filters = {}
+  EmitCases = %(emit)s
+INVARIANTS Safe FEmit
+CHECK_DEADLOCK FALSE
+"""
+
+
+def sflow(ctx, thorough, namplify, measure=True, stride=1):
+    import sflowlib
+    for sw in ("vlan", "router"):
+        d = dict(vlan="TRUE", router="TRUE", emit="FALSE")
+        d[sw] = "FALSE"
+        ctx.tlc_must_fail("SFlowFuzz", "asbuilt.cfg", expect="Safe", workers=8, files={"asbuilt.cfg": SFLOW_FUZZ_CFG % d})
+    r = ctx.tlc_model("SFlowFuzz", "run.cfg", files={"run.cfg": SFLOW_FUZZ_CFG % dict(vlan="TRUE", router="TRUE", emit="TRUE")},
+                      want_cases=True, timeout=3000)
+    cases = r.cases
+    ctx.note("sFlow: TLC proved the reference decoder total on %d boundary datagrams" % len(cases))
+    drv = sflowlib.driver(ctx)
+    jobs = []
+    for ci, c in enumerate(cases):
+        if (ci + ctx.seed) % stride:
+            continue
+        jobs.append({"msgs": [{"buf": c["buf"], "filter": c["filter"]}], "want_json": True, "measure": measure, "src": "tlc"})
+    rng = ctx.rng
+    for _ in range(namplify):
+        c = cases[rng.randrange(len(cases))]
+        b = mutate(rng, c["buf"])
+        if rng.random() < 0.3:
+            b = mutate(rng, b)
+        jobs.append({"msgs": [{"buf": b, "filter": c["filter"]}], "want_json": True, "measure": measure, "src": "mut"})
+    res = flowjobs.run_jobs(ctx, drv, "TestVerifSFlowJobs", jobs, tag="fz_sflow", timeout=3000)
+    ctx.traces_validated += sum(1 for r in res if not r.get("skipped"))
+    for j in jobs:
+        for m in j["msgs"]:
+            m["exp"] = []
+    return list(zip(jobs, res))
+
+
+def v5(ctx, thorough, namplify, measure=True, stride=1):
+    """NetFlow v5 has no cache and a fixed layout: the TLC space of C08 (all counts x lengths) plus mutants"""
+    from props import c08
+    cfg = "SPECIFICATION Spec\nCONSTANT EmitCases = TRUE\nINVARIANTS RoundTrip Reject Emit\nCHECK_DEADLOCK FALSE\n"
+    r = ctx.tlc_model("NetFlow5Gen", "run.cfg", files={"run.cfg": cfg}, want_cases=True, workers=8)
+    cases = r.cases
+    drv = c08.driver(ctx)
+    exps = flowjobs.exporters(ctx.seed)
+    jobs = []
+    for ci, c in enumerate(cases):
+        if (ci + ctx.seed) % stride:
+            continue
+        jobs.append({"msgs": [{"exp": exps[ci % 3], "buf": c["buf"]}], "want_json": True, "measure": measure, "src": "tlc"})
+    rng = ctx.rng
+    for _ in range(namplify):
+        c = cases[rng.randrange(len(cases))]
+        jobs.append({"msgs": [{"exp": exps[rng.randrange(3)], "buf": mutate(rng, c["buf"])}], "want_json": True, "measure": measure, "src": "mut"})
+    res = flowjobs.run_jobs(ctx, drv, "TestVerifNF5Jobs", jobs, tag="fz_v5", timeout=3000)
+    ctx.traces_validated += sum(1 for r in res if not r.get("skipped"))
+    return list(zip(jobs, res))
+
+
+def all_protocols(ctx, thorough, n, measure, stride):
+    yield "ipfix", flow(ctx, "ipfix", thorough, n, measure=measure, stride=stride)
+    yield "v9", flow(ctx, "v9", thorough, n, measure=measure, stride=stride)
+    yield "v5", v5(ctx, thorough, n // 4, measure=measure, stride=stride)
+    yield "sflow", sflow(ctx, thorough, n, measure=measure, stride=stride)
+
+
 def nontrivial(r):
     """past the first guard: the header was accepted"""
     if r.get("skipped"):
         return False
-    return "killed" in r or any(x["st"] in ("ok", "nonfatal", "panic") for x in r["res"])
+    return "killed" in r or any(x["st"] in ("ok", "nonfatal", "panic", "short") or x.get("partial") for x in r["res"])
